@@ -442,7 +442,7 @@ def run_one(prop, tier, seed, proxy=True):
     for f in ("RNG:seed", "RNG:draw", "RNG:shuffle"):
         pass
     return {"ops": sim.ops, "violation": violation, "digest": sim.log.digest(), "stats": st, "config": sim.config(),
-            "nontrivial": st.nonvacuous > 0}
+            "nontrivial": st.nonvacuous > 0, "result_digest": sim.log.digest()[:20]}
 
 
 def replay_ops(prop, ops):
@@ -519,3 +519,8 @@ def simplifications(ops):
 def prepare():
     """Called by the worker right after the seams are installed and before any call into dsw."""
     B.ensure_zygote()
+
+
+def finish():
+    from sim.zygote import ZYGOTE
+    ZYGOTE.stop()
